@@ -1,19 +1,37 @@
 package c04
 
-// spaces returns the bounded program spaces of a tier.
+// spaces returns the bounded program spaces of a tier (see prog_test.go for
+// the notation). Every space is enumerated completely.
+//
+//	full3: <= 3 call levels, every slot of every body shape holds an effect op E
+//	       (storage + notification trace), failing ops at every sequence end
+//	ops2:  <= 2 call levels, <= B ops per body and <= G per tree over the whole op alphabet
+//	ops3:  <= 3 call levels, <= B ops per body and <= G per tree over a small alphabet
+//	fee3:  <= 3 call levels, native setting changes (Policy.setFeePerByte: native cache + storage)
+//	reg*:  native registries: Policy block list (cached sorted list), contract deployment (registry cache, Deploy event)
 func spaces(thorough bool) []*space {
 	qk := [3][]string{1: {"Bf", "Bd", "$gB"}, 2: {"Cf", "$gC"}}
 	if !thorough {
+		fk := [3][]string{1: {"Bf", "Bd", "Af", "$gB", "$sB"}, 2: {"Cf", "Af", "$gC"}}
 		return []*space{
-			{Name: "full3", Levels: 3, TM: "!#~", F: 1, Full: true, Kinds: qk, Block: true},
-			{Name: "ops2", Levels: 2, NT: "EPDX", TM: "!#~", B: 2, G: 2, F: 1, Kinds: qk},
+			{Name: "full3", Levels: 3, TM: "!#~", F: 1, Full: true, Kinds: fk, Block: true},
+			{Name: "ops2", Levels: 2, NT: "ENPDXF", TM: "!#~", B: 2, G: 2, F: 1, Kinds: qk},
 			{Name: "ops3", Levels: 3, NT: "E", TM: "!#", B: 2, G: 2, F: 1, Kinds: qk},
+			{Name: "fee3", Levels: 3, NT: "F", TM: "!", B: 2, G: 3, F: 1, Kinds: [3][]string{1: {"Bf"}, 2: {"Cf"}}},
+			{Name: "fee2b", Levels: 2, NT: "EF", TM: "!", B: 2, G: 2, F: 1, Kinds: [3][]string{1: {"Bf"}}, Block: true},
+			{Name: "reg2", Levels: 2, NT: "KUY", TM: "!#", B: 2, G: 3, F: 1, Kinds: [3][]string{1: {"Bf"}}},
+			{Name: "reg2b", Levels: 2, NT: "KUY", TM: "!", B: 2, G: 2, F: 1, Kinds: [3][]string{1: {"Bf"}}, Block: true},
 		}
 	}
-	tk := [3][]string{1: {"Bf", "Bd", "B7", "B5", "Af", "$gB", "$sB"}, 2: {"Cf", "Cd", "Af", "Bf", "$gC", "$gA"}}
+	tk := [3][]string{1: {"Bf", "Bd", "B7", "B5", "Af", "$gB", "$sB", "$nB"}, 2: {"Cf", "Cd", "Af", "Bf", "$gC", "$gA"}}
 	return []*space{
-		{Name: "full3", Levels: 3, TM: "!#~", F: 2, Full: true, Kinds: tk},
-		{Name: "ops2", Levels: 2, NT: "EPDXF", TM: "!#~", B: 2, G: 2, F: 1, Kinds: tk},
+		{Name: "full3", Levels: 3, TM: "!#~", F: 2, Full: true, Kinds: tk, Block: true},
+		{Name: "ops2", Levels: 2, NT: "ENPDXF", TM: "!#~", B: 2, G: 2, F: 2, Kinds: tk},
 		{Name: "ops3", Levels: 3, NT: "EP", TM: "!#", B: 2, G: 3, F: 1, Kinds: qk},
+		{Name: "fee3", Levels: 3, NT: "EF", TM: "!", B: 2, G: 3, F: 1, Kinds: [3][]string{1: {"Bf", "$gB"}, 2: {"Cf", "Af"}}},
+		{Name: "fee3b", Levels: 3, NT: "F", TM: "!", B: 2, G: 3, F: 1, Kinds: [3][]string{1: {"Bf"}, 2: {"Cf"}}, Block: true},
+		{Name: "reg3", Levels: 3, NT: "KUY", TM: "!#", B: 2, G: 2, F: 1, Kinds: [3][]string{1: {"Bf", "$gB"}, 2: {"Cf"}}},
+		{Name: "reg2", Levels: 2, NT: "KUYF", TM: "!#", B: 2, G: 3, F: 1, Kinds: [3][]string{1: {"Bf"}}},
+		{Name: "reg2b", Levels: 2, NT: "KUY", TM: "!", B: 2, G: 2, F: 1, Kinds: [3][]string{1: {"Bf"}}, Block: true},
 	}
 }
